@@ -70,7 +70,7 @@ Definition a_step (R : Z) (m : amap) (o : op) : amap :=
   match o with
   | OAdd x => a_set (nrepr x) (clamp R R, nval x) m
   | OAddR x r => a_set (nrepr x) (clamp R r, nval x) m
-  | OAddW x w => a_set (nrepr x) (clamp R (Z.quot (R * w) 100), nval x) m
+  | OAddW x w => a_set (nrepr x) (clamp R (Z.quot (wrap64 (R * w)) 100), nval x) m
   | ORemove x => a_del (nrepr x) m
   end.
 
@@ -210,8 +210,17 @@ Definition core_ok (c : rcase) : bool :=
    ProofsB.collision_free_spec turns it into [collision_free_on (vh_of (cvh c)) (cR c) universe] *)
 Definition final_map (c : rcase) : amap := fold_left (a_step (cR c)) (cops c) [].
 
+(* The replica count AddWithWeight derives from a weight is specified as h.replicas * weight / TopWeight
+   while that product fits Go's int.  Beyond (|weight| > ~2^63 / h.replicas) the product wraps; the model
+   follows the code there too ([wrap64], checked by [agrees]), but the property is not judged on such
+   histories: which replica count an absurd weight "should" give is not part of the property. *)
+Definition fits64 (z : Z) : bool := (-9223372036854775808 <=? z) && (z <? 9223372036854775808).
+Definition weights_in_domain (R : Z) (ops : list op) : bool :=
+  forallb (fun o => match o with OAddW _ w => fits64 (R * w) | _ => true end) ops.
+
 Definition prop_ok_r (c : rcase) : bool :=
   let cf := collision_free (cvh c) && table_ok (cvh c) (cR c) in
+  if negb (weights_in_domain (cR c) (cops c)) then true else
   if cfinal c then
     (* a key is served — read, written, deleted — by the node the ring designates *)
     negb (match cgets c with [] => true | _ => false end) &&
@@ -302,10 +311,19 @@ Definition touch_ok (u : ucase) (cf : bool) (io : option Z) (allowed : option (l
 
 Definition covered (ts : list Z) (k : Z) : bool := existsb (fun t => t / 64 =? k) ts.
 
+(* an instance none of whose nodes has a virtual node (reachable through the constructors only with
+   weights whose product with h.replicas overflows Go's int): every operation fails, nothing is sent *)
+Definition no_members (u : ucase) (i : Z) : bool :=
+  if i <? 0 then false else
+  match nth_error (u_maps u) (Z.to_nat i) with
+  | Some m => match members m with [] => true | _ => false end
+  | None => false
+  end.
+
 Definition ustep_ok (u : ucase) (cf : bool) (o : cop) (ts : list Z) : bool :=
   match o with
-  | CSingle i k => forallb (touch_ok u cf (Some i) (Some [k])) ts && covered ts k
-  | CDel i ks => forallb (touch_ok u cf (Some i) (Some ks)) ts && forallb (covered ts) ks
+  | CSingle i k => forallb (touch_ok u cf (Some i) (Some [k])) ts && (no_members u i || covered ts k)
+  | CDel i ks => forallb (touch_ok u cf (Some i) (Some ks)) ts && (no_members u i || forallb (covered ts) ks)
   | CDelX i ks => forallb (touch_ok u cf (Some i) (Some ks)) ts
   | CTick => forallb (touch_ok u cf None None) ts
   | _ => match ts with [] => true | _ => false end
@@ -328,6 +346,7 @@ Fixpoint usnaps_ok (u : ucase) (cf : bool) (clean : bool) (ops : list cop) (snap
 
 Definition prop_ok_u (u : ucase) : bool :=
   let cf := collision_free (uvh u) && table_ok (uvh u) (uR u) in
+  if negb (forallb (fun ic => weights_in_domain (uR u) (snd ic)) (uinsts u)) then true else
   forall2b (ustep_ok u cf) (uops u) (utouch u) && usnaps_ok u cf false (uops u) (usnaps u).
 
 (* ==== the case type evaluated by the runner ==================================================== *)
